@@ -225,6 +225,8 @@ def main():
             pass
     else:
         tier = args[1]
+    if not replay and os.environ.get("VERIF_TIER") in ("quick", "thorough"):
+        tier = os.environ["VERIF_TIER"]
     tier = os.environ.get("VERIF_TIER_OVERRIDE", tier)
     seed = int(os.environ.get("VERIF_SEED", "1") or "1")
     t_start = time.time()
